@@ -67,6 +67,13 @@ class Module:
             q = (cls + '.' if cls else '') + name
             cur_sig = equiv.build_sigdb(self.raw_functions, self.raw_classes, cls, extra)
             ref_sig = equiv.build_sigdb(ref_funcs, ref_classes, cls, extra)
+            for tree_, sig_ in ((self.tree, cur_sig), (ref_tree, ref_sig)):
+                for st_ in tree_.body:
+                    if isinstance(st_, ast.Assign) and len(st_.targets) == 1 and isinstance(st_.targets[0], ast.Name) and isinstance(st_.value, (ast.Dict, ast.Tuple)) \
+                            and all(isinstance(x, (ast.Dict, ast.Tuple, ast.Constant, ast.expr_context)) for x in ast.walk(st_.value)):
+                        nm_ = st_.targets[0].id
+                        if sum(1 for z in ast.walk(tree_) if isinstance(z, ast.Name) and z.id == nm_ and isinstance(z.ctx, ast.Store)) == 1:
+                            sig_[('modconst', nm_)] = st_.value
             if cls and ('rebuild', cls) in cur_sig:
                 cur_sig[('rebuild', cls)] = cur_exp.expand(cur_sig[('rebuild', cls)], cls=cls)
             ok, ta, tb = equiv.equivalent(cur, ref, cur_exp, ref_exp, cls, cur_sig, ref_sig)
@@ -78,6 +85,20 @@ class Module:
                     self.functions[name] = ref
             else:
                 self.unproved[q] = (ta, tb)
+                # not proved: the rules look at the current version.  Branch polarity is brought to the spelling the confirmed
+                # version uses (`if not NLgeom: A else: B` -> `if NLgeom: B else: A` when the confirmed version tests `NLgeom`)
+                try:
+                    tgt = self.classes[cls][name] if cls else self.functions[name]
+                    ref_tests = {ast.dump(equiv.canon_test(n.test)) for n in ast.walk(ref) if isinstance(n, (ast.If, ast.IfExp))}
+                    for n in ast.walk(tgt):
+                        if isinstance(n, ast.If) and n.orelse:
+                            t1 = ast.dump(equiv.canon_test(n.test))
+                            neg = equiv.canon_test(equiv.negate(n.test))
+                            if t1 not in ref_tests and ast.dump(neg) in ref_tests:
+                                n.test, n.body, n.orelse = ast.copy_location(neg, n.test), n.orelse, n.body
+                                ast.fix_missing_locations(n)
+                except Exception:
+                    pass
 
     def method(self, cls, name):
         m = self.classes.get(cls, {}).get(name)
